@@ -26,7 +26,7 @@ def emit_sig(sig):
     return coq_list(["(%s, %s)" % (coq_str(n), coq_str(d or "")) for n, d in sig])
 
 
-def emit_members(tab, eq_excluded=None, supersig=None, switch=None):
+def emit_members(tab, eq_excluded=None, supersig=None, switch=None, helpers=None):
     """-> (text, errors)"""
     errors = []
     names = [c["name"] for c in tab["classes"]]
@@ -74,6 +74,11 @@ def emit_members(tab, eq_excluded=None, supersig=None, switch=None):
     ss = supersig or {}
     out.append("Definition add_loops : list string := %s." % coq_list([coq_str(x) for x in ss.get("add_loops", [])]))
     out.append("Definition hint_loops : list string := %s." % coq_list([coq_str(x) for x in ss.get("hint_loops", [])]))
+    out.append("Definition arg_check : list string := %s." % coq_list([coq_str(x) for x in ss.get("arg_check", [])]))
+    out.append("Definition hint_tests : list string := %s." % coq_list([coq_str(x) for x in ss.get("hint_tests", [])]))
+    # what methods that are read-only by name write on self (translators/tr_helpers.py)
+    out.append("Definition reader_writes : list string := %s." % coq_list(
+        [coq_str("%s.%s: %s" % (c_, m_, "; ".join(w_))) for c_, m_, w_ in (helpers or {}).get("writes", [])]))
     out.append("Definition validate_default_recursive : string := %s." % coq_str(ss.get("validate_default_recursive", "missing")))
     out.append("Definition validate_sites : list (string * string) := %s." % coq_list(
         ["(%s, %s)" % (coq_str(a), coq_str(b_)) for a, b_ in ss.get("validate_sites", [])]))
@@ -88,8 +93,8 @@ def emit_members(tab, eq_excluded=None, supersig=None, switch=None):
     return "\n".join(out) + "\n", errors
 
 
-def gen_members(ck, tab, eq_excluded=None, supersig=None, switch=None):
-    text, errors = emit_members(tab, eq_excluded, supersig, switch)
+def gen_members(ck, tab, eq_excluded=None, supersig=None, switch=None, helpers=None):
+    text, errors = emit_members(tab, eq_excluded, supersig, switch, helpers)
     ck.oblige("translate:supergen", not errors, "; ".join(errors[:20]), kind="translate")
     g = ck.gen_v("Gen_Members.v", text)
     ok, out = ck.coqc(g, timeout=600)
